@@ -127,6 +127,19 @@ CLAIMS["C14"] = dict(
     technique="static analysis: symbolic constructor expansion + normal-form table comparison + std definition model",
     design="DESIGN.md section 5, C14")
 
+CLAIMS["C04"] = dict(
+    text="Disciplines without which the store provably diverges from a sequential port-multigraph model, decided on all paths: "
+         "owner-only writes to the node table / free list / link map / child lists / port counters across the whole package "
+         "(aliases and children() results followed); slot <-> free-list <-> child-list pairing in delete_node and _add_node "
+         "(CFG must-pass-through); every removal from the link map goes through the single gap-closing helper because readers and "
+         "allocator assume a gap-free prefix of sub-offsets (contradiction rule); delete_node drains every port incl. the order "
+         "port; all query methods are effect-free (transitive); add_link grows counts by max(); direction <-> dictionary tables and "
+         "listing methods compared as normal forms.",
+    note="Not decided: agreement of every query with the model after arbitrary histories (needs execution); correctness of the "
+         "re-keying arithmetic inside the helper beyond its shape.",
+    technique="static analysis: who-may-write + effect analysis + CFG pairing + contradiction rule + normal-form tables",
+    design="DESIGN.md section 5, C04")
+
 NOT_APPLICABLE_REASON: dict[str, str] = {}
 
 
